@@ -348,8 +348,15 @@ class CppEmitter(Visitor):
         unsafe_cast_int: bool = False,
         unbox: UnboxAnalysis | None = None,
         callee_params: dict | None = None,
+        entry_mode_known: bool = True,
     ):
         self.ast = ast
+        # Whether the caller delivers the ``fesetround`` mode of this function's
+        # top-level context.  A native caller does, by the documented contract;
+        # a compiled one calls from whatever mode its own scope set -- a callee
+        # declaring ``ctx=`` is entered from any -- so a called spec sets its
+        # mode itself.
+        self._entry_mode_known = entry_mode_known
         self.storage = storage
         self.def_use = def_use
         self.format_info = format_info
@@ -909,7 +916,9 @@ class CppEmitter(Visitor):
         # `_current_rm` is the mode the live fenv is guaranteed to hold on entry,
         # which the caller delivers -- see `_entry_rm` for what it is and when it
         # is unknown.  Either way no entry `fesetround` is emitted.
-        self._current_rm = self._entry_rm(func)
+        self._current_rm = (
+            self._entry_rm(func) if self._entry_mode_known else None
+        )
         func_ctx = self._resolve_used_ctx(func)
         # REAL sets no fenv mode; its ops succeed only via `_try_widen`, whose
         # failure reports a precise location.  Validating here would fire first
